@@ -7,7 +7,7 @@
    variant [carry_mappings true] and no other (source_variant_unique). *)
 From Coq Require Import ZArith List Bool Lia Arith.
 From Batchie Require Import Lib.Sexp Lib.PyRt Generated.Consts Generated.SrcArith Model.Encode Model.Screen Model.Reveal
-  Model.Holdout Generated.SrcReveal Proofs.PyRtLemmas Proofs.C03Frozen Proofs.C03Witness.
+  Model.Holdout Generated.SrcReveal Proofs.PyRtLemmas Proofs.C03Base Proofs.C03Screen Proofs.C03Frozen Proofs.C03Witness.
 Import ListNotations.
 Open Scope Z_scope.
 
@@ -181,10 +181,6 @@ Proof.
   - cbn [put_cols]. rewrite IH by lia. now rewrite with_cols_self.
 Qed.
 
-Lemma put_cols_assign_nil rows :
-  put_cols rows (map r_obs rows) (map r_mask rows) = rows.
-Proof. induction rows as [|r rows IH]; cbn [map put_cols]; [reflexivity|]. now rewrite IH, with_cols_self. Qed.
-
 (* the model's set_observed is the translated method run on the screen's two arrays, put back into the screen *)
 Theorem set_observed_is_src : forall (s : screen) (sel : list bool) (vals : list Z),
   set_observed s sel vals
@@ -200,4 +196,119 @@ Proof.
   - destruct vals as [|x [|y vals]]; cbn [res_bind]; try reflexivity.
     cbn [fst snd].
     unfold set_cols. now rewrite put_cols_assign by (try exact El; apply repeat_length).
+Qed.
+
+(* ---------- Screen.__init__: the two statement runs that decide observations / observation_mask ---------- *)
+Lemma map_const {A B} (b : B) (l : list A) : map (fun _ => b) l = repeat b (length l).
+Proof. induction l as [|a l IH]; cbn [map length repeat]; [reflexivity | now rewrite IH]. Qed.
+
+(* run 1 (None handling): on the arrays a constructor call passes, it yields the observation / mask columns of
+   the rows the model's constructor stores ([norm_rows]), or the model's Err 7 *)
+Lemma src_init_observations_spec rows (og mg : bool) :
+  src_init_observations (if og then Some (map r_obs rows) else None) (if mg then Some (map r_mask rows) else None)
+                        (Z.of_nat (length rows))
+  = if negb og && mg then Err 7
+    else Ok (map r_obs (norm_rows og mg rows), map r_mask (norm_rows og mg rows)).
+Proof.
+  unfold src_init_observations, norm_rows, np_full. rewrite Nat2Z.id.
+  destruct og, mg; cbn [is_none is_some andb negb res_bind]; rewrite ?map_length, ?Z.eqb_refl; cbn [negb res_bind];
+    rewrite ?map_map; cbn [r_obs r_mask]; rewrite ?map_const; reflexivity.
+Qed.
+
+(* run 2 (per-plate check) *)
+Definition plate_rows (p : name) (rows : list row) : list row := filter (fun r => name_eqb (r_plate r) p) rows.
+Definition plate_ok (rows : list row) (p : name) : bool :=
+  match plate_rows p rows with
+  | [] => true
+  | r :: rest => forallb (fun r' => Bool.eqb (r_mask r') (r_mask r)) (r :: rest)
+  end.
+
+Lemma select_eq_name p rows :
+  select (np_eq_name (map r_plate rows) p) (map r_mask rows) = map r_mask (plate_rows p rows).
+Proof.
+  unfold np_eq_name, plate_rows. induction rows as [|r rows IH]; cbn [map select filter]; [reflexivity|].
+  destruct (name_eqb (r_plate r) p); cbn [map]; now rewrite IH.
+Qed.
+
+Lemma res_fold_check_in {A : Type} (p : A -> bool) (t : Z) (f : unit -> A -> result unit) l :
+  (forall u a, In a l -> f u a = if p a then Ok tt else Err t) ->
+  forall u, res_fold f l u = if forallb p l then Ok tt else Err t.
+Proof.
+  induction l as [|a l IH]; intros H u; cbn [res_fold forallb]; [destruct u; reflexivity|].
+  rewrite H by now left. destruct (p a); cbn [res_bind andb]; [|reflexivity].
+  apply IH. intros u' a' Ha. apply H. now right.
+Qed.
+
+Lemma plate_rows_In p rows r : In r (plate_rows p rows) <-> In r rows /\ r_plate r = p.
+Proof. unfold plate_rows. rewrite filter_In, name_eqb_eq. reflexivity. Qed.
+
+Lemma plate_ok_all rows :
+  forallb (plate_ok rows) (sort_uniq name_cmp (map r_plate rows)) = plate_uniform rows.
+Proof.
+  apply eq_true_iff_eq. rewrite forallb_forall, plate_uniform_spec. split.
+  - intros H r1 r2 H1 H2 Hp.
+    assert (Hin : In (r_plate r1) (sort_uniq name_cmp (map r_plate rows))).
+    { apply (In_sort_uniq name_cmp name_cmp_eq). now apply in_map. }
+    specialize (H _ Hin). unfold plate_ok in H.
+    assert (I1 : In r1 (plate_rows (r_plate r1) rows)) by now apply plate_rows_In.
+    assert (I2 : In r2 (plate_rows (r_plate r1) rows)) by (apply plate_rows_In; split; [exact H2 | now symmetry]).
+    destruct (plate_rows (r_plate r1) rows) as [|r rest]; [contradiction|].
+    rewrite forallb_forall in H. pose proof (H _ I1) as E1. pose proof (H _ I2) as E2.
+    apply eqb_prop in E1, E2. congruence.
+  - intros H p Hp. unfold plate_ok. destruct (plate_rows p rows) as [|r rest] eqn:E; [reflexivity|].
+    apply forallb_forall. intros r' Hr'. apply eqb_true_iff.
+    assert (I0 : In r (plate_rows p rows)) by (rewrite E; now left).
+    assert (I1 : In r' (plate_rows p rows)) by now rewrite E.
+    apply plate_rows_In in I0, I1. apply H; try tauto. destruct I0 as [_ ->], I1 as [_ ->]. reflexivity.
+Qed.
+
+Lemma src_init_plate_check_spec rows :
+  src_init_plate_check (map r_plate rows) (map r_mask rows) = if plate_uniform rows then Ok tt else Err 2.
+Proof.
+  unfold src_init_plate_check.
+  rewrite (res_fold_check_in (plate_ok rows) 2).
+  - rewrite plate_ok_all. destruct (plate_uniform rows); reflexivity.
+  - intros u p Hp. apply (proj1 (In_sort_uniq name_cmp name_cmp_eq _ _)) in Hp. cbv zeta. rewrite select_eq_name.
+    unfold plate_ok. apply in_map_iff in Hp. destruct Hp as (r0 & Hr0 & Hin).
+    assert (I0 : In r0 (plate_rows p rows)) by now apply plate_rows_In.
+    destruct (plate_rows p rows) as [|r rest]; [contradiction|].
+    change (list_get (map r_mask (r :: rest)) 0) with (Ok (r_mask r) : result bool). cbn [res_bind].
+    unfold np_all, np_eq_bool. rewrite map_map, forallb_id_map.
+    destruct (forallb _ (r :: rest)); reflexivity.
+Qed.
+
+(* both runs on the arrays of a constructor call, and the rows they leave *)
+Definition src_mask_rules (rows : list row) (og mg : bool) : result (list row) :=
+  dor om <- src_init_observations (if og then Some (map r_obs rows) else None) (if mg then Some (map r_mask rows) else None)
+                                  (Z.of_nat (length rows));
+  dor _ <- src_init_plate_check (map r_plate rows) (snd om);
+  Ok (put_cols rows (fst om) (snd om)).
+
+Lemma put_cols_map (g : row -> row) rows :
+  (forall r, with_cols (r_obs (g r)) (r_mask (g r)) r = g r) ->
+  put_cols rows (map r_obs (map g rows)) (map r_mask (map g rows)) = map g rows.
+Proof. intros H. induction rows as [|r rows IH]; cbn [map put_cols]; [reflexivity | now rewrite IH, H]. Qed.
+
+Lemma put_cols_norm og mg rows :
+  put_cols rows (map r_obs (norm_rows og mg rows)) (map r_mask (norm_rows og mg rows)) = norm_rows og mg rows.
+Proof.
+  unfold norm_rows. destruct og; [destruct mg|]; try (apply put_cols_map; reflexivity).
+  rewrite <- (map_id rows) at 2 3 4. apply put_cols_map. apply with_cols_self.
+Qed.
+
+(* the model's constructor, for whatever the call passes: refuse ragged rows; run the TRANSLATED mask rules of
+   Screen.__init__; then it is the constructor on the rows they leave, with observations and mask given *)
+Theorem mk_screen_is_src_mask_rules : forall rows a c tm sm og mg,
+  mk_screen rows a c tm sm og mg
+  = if negb (arity_ok a rows) then Err 1
+    else dor rows' <- src_mask_rules rows og mg; mk_screen rows' a c tm sm true true.
+Proof.
+  intros rows a c tm sm og mg. rewrite mk_screen_unfold. destruct (arity_ok a rows) eqn:Ea; cbn [negb]; [|reflexivity].
+  unfold src_mask_rules. rewrite src_init_observations_spec.
+  destruct (negb og && mg); cbn [res_bind fst snd]; [reflexivity|]. cbv zeta.
+  rewrite <- (norm_rows_plate og mg rows), src_init_plate_check_spec.
+  destruct (plate_uniform (norm_rows og mg rows)) eqn:U; cbn [negb res_bind]; [|reflexivity].
+  rewrite put_cols_norm, (mk_screen_unfold (norm_rows og mg rows)).
+  rewrite (arity_ok_treats a rows (norm_rows og mg rows)) by apply norm_rows_treats.
+  rewrite Ea. cbn [negb andb]. cbv zeta. rewrite norm_rows_tt, U. reflexivity.
 Qed.
